@@ -216,6 +216,57 @@ theorem liveInv_destroyNowU (info : CompId → CompInfo) {w : WM} (hok : RowsOK 
     have : w.destroyNowU info h = (w, []) := by simp [WM.destroyNowU, hv]
     rw [this]; exact hl
 
+/-! ## the id-table hypotheses, reduced to elementary facts of the C01 invariant -/
+
+theorem isValid_slot {w : WM} {h : Handle} (hv : w.isValid h = true) :
+    ∃ s, w.slots[h.id]? = some s ∧ s.idf = h.id ∧ s.ver = h.ver := by
+  unfold WM.isValid at hv
+  cases hs : w.slots[h.id]? with
+  | none => rw [hs] at hv; simp at hv
+  | some s =>
+    rw [hs] at hv
+    simp only [Bool.and_eq_true, beq_iff_eq] at hv
+    exact ⟨s, rfl, hv.2.2, hv.2.1⟩
+
+/-- C01 `freelist_wf`: the head of a non-empty free list is a table slot that does not store its own id -/
+def FreeHeadFree (w : WM) : Prop := w.empty ≠ 0 → ∃ s, w.slots[w.next]? = some s ∧ s.idf ≠ w.next
+
+/-- `AllocOK` from: rows = live handles, `locations_` covers `entities_`, the table is smaller than
+the null id, the free-list head is free -/
+theorem allocOK_of_table {w : WM} (hl : LiveInv w) (hcov : w.slots.length ≤ w.locs.length)
+    (hsmall : w.slots.length < nullId) (hhead : FreeHeadFree w) : AllocOK w := by
+  by_cases he : w.empty = 0
+  · refine ⟨?_, ?_, ?_⟩
+    · rw [allocId_grow w he]
+      intro ai i r hr hid
+      have := isValid_id_lt (hl.row_live ai i r hr)
+      simp only at hid
+      omega
+    · rw [allocId_grow w he]; simp only; omega
+    · rw [allocId_grow w he]; simp only [List.length_append, List.length_singleton]; omega
+  · rcases hhead he with ⟨s, hs, hidf⟩
+    have hlt : w.next < w.slots.length := (List.getElem?_eq_some_iff.mp hs).1
+    refine ⟨?_, ?_, ?_⟩
+    · rw [allocId_pop w he s hs]
+      intro ai i r hr hid
+      simp only at hid
+      rcases isValid_slot (hl.row_live ai i r hr) with ⟨s', hs', hidf', _⟩
+      rw [hid, hs] at hs'
+      cases hs'
+      exact hidf (hidf'.trans hid)
+    · rw [allocId_pop w he s hs]; simp only; omega
+    · rw [allocId_pop w he s hs]; simp only [List.length_set]; omega
+
+/-- `FreeHeadNot` for a live handle from the same fact -/
+theorem freeHeadNot_of_table {w : WM} (hhead : FreeHeadFree w) {e : Handle} (hv : w.isValid e = true) :
+    FreeHeadNot w e.id := by
+  intro he hn
+  rcases hhead he with ⟨s, hs, hidf⟩
+  rcases isValid_slot hv with ⟨s', hs', hidf', _⟩
+  rw [← hn, hs] at hs'
+  cases hs'
+  exact hidf (hidf'.trans hn.symm)
+
 /-! ## keys through `destroyNow`, `update`, `clearArchetype` (unconditional) -/
 
 theorem keysSame_destroyNowU (info : CompId → CompInfo) (w : WM) (h : Handle) :
